@@ -333,22 +333,39 @@ def completeStmt (eq : List Char) : Option (Except SplitEnd (List Char)) :=
   else if eqSearch (strip eq) then some (.error .indentationError)
   else some (.error .parserError)
 
+/-- What one (raw) line does to the automaton. -/
+inductive LineOut where
+  | next (st : SplitState)        -- keep buffering (or: a blank buffer was dropped and the automaton reset)
+  | emit (eq : List Char)         -- a complete statement is yielded, the automaton resets
+  | stop (e : SplitEnd)           -- an error is raised
+  deriving DecidableEq, Repr
+
+def finishLine (eq : List Char) : LineOut :=
+  match completeStmt eq with
+  | none => .next .init
+  | some (.ok e) => .emit e
+  | some (.error e) => .stop e
+
+def countLine (st : SplitState) (line : List Char) : LineOut :=
+  match parenCount st.depth line with
+  | none => .stop .parserError
+  | some d =>
+    if d == 0 && !(st.inFence && !isFenceLine line) then finishLine (joinLines (st.buf ++ [line]))
+    else .next ⟨d, st.inFence && !isFenceLine line, st.buf ++ [line]⟩
+
+/-- `line` is already comment-stripped. An opening fence (first line of the buffer) skips the parenthesis count. -/
+def lineStepS (st : SplitState) (line : List Char) : LineOut :=
+  if isFenceLine line && st.buf.isEmpty then .next ⟨st.depth, true, [line]⟩ else countLine st line
+
+def lineStep (st : SplitState) (raw : List Char) : LineOut := lineStepS st (stripComment raw)
+
 def splitGo : SplitState → List (List Char) → List (List Char) × SplitEnd
   | st, [] => ([], if st.depth != 0 then .parserError else .ok)
   | st, raw :: rest =>
-    if isFenceLine (stripComment raw) && st.buf.isEmpty then
-      splitGo ⟨st.depth, true, [stripComment raw]⟩ rest
-    else
-      match parenCount st.depth (stripComment raw) with
-      | none => ([], .parserError)
-      | some d =>
-        if d == 0 && !(st.inFence && !isFenceLine (stripComment raw)) then
-          match completeStmt (joinLines (st.buf ++ [stripComment raw])) with
-          | none => splitGo .init rest
-          | some (.ok eq) => consFst eq (splitGo .init rest)
-          | some (.error e) => ([], e)
-        else
-          splitGo ⟨d, st.inFence && !isFenceLine (stripComment raw), st.buf ++ [stripComment raw]⟩ rest
+    match lineStep st raw with
+    | .next st' => splitGo st' rest
+    | .emit eq => consFst eq (splitGo .init rest)
+    | .stop e => ([], e)
 
 /-- Statements yielded by `split_equations_iter` before it stops, and how it stops. -/
 def splitStatements (s : List Char) : List (List Char) × SplitEnd := splitGo .init (splitLines s)
